@@ -39,31 +39,7 @@ def run(chk, repo):
     rets = [n for n in gi.own_nodes() if isinstance(n, ast.Return)]
     if not rets:
         raise AnalysisError("anchor vanished: return of Array.__getitem__")
-    # ---------------------------------------------------------------- X1
-    finals = []
-    for r in rets:
-        e = r.value
-        if isinstance(e, ast.Name):
-            d = flow.reaching_def(e.id, e)
-            e = d if d is not None else e
-        if isinstance(e, ast.Subscript):
-            finals.append((r, e))
-    n_ok = 0
-    row_components = []
-    for r, sub in finals:
-        key = flow.expand(sub.slice)
-        row, rest = split_key(key)
-        good = rest is not None and is_tail_of(rest, param)
-        if rest is None and is_empty_result(repo, gi, sub):
-            continue
-        chk.require(good, "C02-X1", where, f"result = data[{short(row, 30) if row is not None else '?'}, *{param}[1:]]: column indexers reach NumPy unchanged and in order",
-                    f"final subscript is {short(key, 80)}: the caller's column indexers ({param}[1:]) are not applied unchanged", key="getitem:column-delegation",
-                    sample={"subscript": short(key, 80)})
-        n_ok += 1
-        if row is not None:
-            row_components.append((r, sub, row))
-    if n_ok == 0:
-        chk.fail("C02-X1", where, f"no return of the form data[row, *{param}[1:]] found", key="getitem:column-delegation")
+    row_components = column_delegation(chk, repo, "C02-X1")
     # ---------------------------------------------------------------- X2
     tests = []
     for n in gi.own_nodes():
@@ -152,6 +128,16 @@ def run(chk, repo):
     a3 = norm(adapter.args[3]) if len(adapter.args) > 3 else None
     chk.require(a0 == wg.positional_params[1] and a1 == "self.shape" and a3 == "self._raw_indexing_method", "C02-X4", f"{xm.relpath}:LazilyIndexedWrapper.__getitem__",
                 "adapter receives (key, self.shape, level, self._raw_indexing_method)", f"adapter receives ({a0}, {a1}, .., {a3})", key="wrapper:adapter-args")
+    # every key goes through the adapter; a direct path is only sound for BasicIndexer keys (ints and slices)
+    from ..callgraph import guards_of as _guards
+    for r in [n for n in wg.own_nodes() if isinstance(n, ast.Return)]:
+        if r.value is adapter or (isinstance(r.value, ast.Call) and norm(r.value.func).endswith("explicit_indexing_adapter")):
+            continue
+        gs = [norm(t) for t, pol in _guards(r, wg.node) if pol]
+        basic_only = any("isinstance(" in g and "BasicIndexer" in g and "OuterIndexer" not in g and "VectorizedIndexer" not in g for g in gs)
+        chk.require(basic_only, "C02-X4", f"{xm.relpath}:LazilyIndexedWrapper.__getitem__", f"`{short(r, 60)}` bypasses the adapter for BasicIndexer keys only",
+                    f"`{short(r, 70)}` (guards: {gs or 'none'}) hands keys to the backend without xarray's decomposition: index arrays reach a backend that regroups rows by chunk, "
+                    f"so unsorted/repeated line lists come back in the wrong order", key="wrapper:bypass")
     rim = xm.func("LazilyIndexedWrapper._raw_indexing_method")
     rr = [n for n in rim.own_nodes() if isinstance(n, ast.Return)]
     kp = rim.positional_params[1]
@@ -198,3 +184,43 @@ def is_tail_of(e, param):
 
 def is_empty_result(repo, gi, sub):
     return False
+
+
+def column_delegation(chk, repo, rule):
+    """every return of Array.__getitem__ is data[row component, *indexers[1:]]"""
+    am = repo.module(ARRAY)
+    gi = am.func("Array.__getitem__")
+    where = f"{am.relpath}:Array.__getitem__"
+    flow = Flow(gi)
+    param = gi.positional_params[1]
+    rets = [n for n in gi.own_nodes() if isinstance(n, ast.Return)]
+    # ---------------------------------------------------------------- X1
+    finals = []
+    for r in rets:
+        e = r.value
+        if isinstance(e, ast.Name):
+            d = flow.reaching_def(e.id, e)
+            e = d if d is not None else e
+        if isinstance(e, ast.Subscript):
+            finals.append((r, e))
+        else:
+            # a return path that does not index the assembled rows with the caller's column indexers
+            chk.fail(rule, where, f"`{short(r, 70)}` returns without applying the caller's column indexers ({param}[1:]): "
+                                      f"on that path the result has all columns whatever was asked for (shape differs from NumPy's)", key="getitem:return-without-columns")
+    n_ok = 0
+    row_components = []
+    for r, sub in finals:
+        key = flow.expand(sub.slice)
+        row, rest = split_key(key)
+        good = rest is not None and is_tail_of(rest, param)
+        if rest is None and is_empty_result(repo, gi, sub):
+            continue
+        chk.require(good, rule, where, f"result = data[{short(row, 30) if row is not None else '?'}, *{param}[1:]]: column indexers reach NumPy unchanged and in order",
+                    f"final subscript is {short(key, 80)}: the caller's column indexers ({param}[1:]) are not applied unchanged", key="getitem:column-delegation",
+                    sample={"subscript": short(key, 80)})
+        n_ok += 1
+        if row is not None:
+            row_components.append((r, sub, row))
+    if n_ok == 0:
+        chk.fail(rule, where, f"no return of the form data[row, *{param}[1:]] found", key="getitem:column-delegation")
+    return row_components
